@@ -462,10 +462,15 @@ def extract(repo):
         pos = mm.end()
         need(not saw_validate, "statements after validate() in the hint data block")
         if mm.group("t1"):
-            hint_rows.append((v3key.get(mm.group("t1")), camel(mm.group("s1")), "HAssign"))
+            hk = camel(mm.group("s1"))
+            ht = dict(out["hint_schema"]).get(hk)
+            need(ht in ("TNum", "TBool", "TNums"), "hint field %s is assigned directly but has type %s" % (hk, ht))
+            hint_rows.append((v3key.get(mm.group("t1")), hk, "(HAssign H%s)" % ht[1:]))
         elif mm.group("t2"):
             need(mm.group("b") == mm.group("b2"), "flatten of a different binding")
-            hint_rows.append((v3key.get(mm.group("t2")), camel(mm.group("s2")), "HFlatten"))
+            hk = camel(mm.group("s2"))
+            need(dict(out["hint_schema"]).get(hk) == "TNumss", "hint field %s is flattened but is not a list of lists" % hk)
+            hint_rows.append((v3key.get(mm.group("t2")), hk, "HFlatten"))
         else:
             saw_validate = True
     need(saw_validate, "the hint data block no longer re-validates the font info")
@@ -484,10 +489,17 @@ def extract(repo):
     need("features.push('\\n');" in feat, "the newline between classes and feature blocks moved")
     need("ifletSome(txt)=features_split.get(&key){features.push_str(txt);}" in feat,
          "feature blocks are no longer concatenated by key lookup")
-    if "features_split.keys().cloned().collect::<Vec<String>>()" in feat:
-        out["feature_order_mode"] = "OrderHash"        # HashMap iteration order when no order list
+    need("letorder:Vec<String>=ifletSome(feature_order)=lib_data.feature_order{feature_order}else{"
+         "features_split.keys().cloned().collect::<Vec<String>>()};" in feat,
+         "the block order is no longer: the order list if present, else the keys of the features map")
+    need("forkeyinorder{" in feat, "the blocks are no longer emitted by iterating the order")
+    fty = dict(out["lib_keys"]).get(libfield["features"])
+    if fty == "BTreeMap<String,String>":
+        out["feature_order_mode"] = "OrderSorted"      # keys() of a BTreeMap: ascending
+    elif fty == "HashMap<String,String>":
+        out["feature_order_mode"] = "OrderHash"        # hash iteration order
     else:
-        out["feature_order_mode"] = "OrderOther"
+        raise AnchorError("features map has unexpected type %s" % fty)
     need(squeeze(fn[blk_end:]).endswith("iffeatures.is_empty(){Ok(None)}else{Ok(Some(features))}"),
          "the function no longer returns None for an empty feature text")
 
